@@ -842,6 +842,73 @@ Proof.
   repeat split; rewrite lookup_app, (lookup_map_set_all _ _ (span_fixed s)), ?H1, ?H2, ?H3; reflexivity.
 Qed.
 
+(* ---- whole requests: nothing is carried from one resource / scope / record to the next ---- *)
+
+Lemma trace_request_app a b : trace_request (a ++ b) = trace_request a ++ trace_request b.
+Proof. induction a as [|r a IH]; cbn; [reflexivity|]. rewrite IH, app_assoc. reflexivity. Qed.
+
+(* the spans of a resource are stored with the service name of THEIR resource, whatever
+   resources precede or follow it in the export request *)
+Theorem trace_request_own_service pre r post :
+  trace_request (pre ++ r :: post) =
+  trace_request pre ++
+  map (fun s => span_build (set_service (service_scan [] (rs_attrs r)) s)) (rs_spans r) ++
+  trace_request post.
+Proof. rewrite trace_request_app. reflexivity. Qed.
+
+Lemma service_scan_absent init attrs :
+  forallb (fun f => negb (bytes_eqb (fst f) k_service_name)) attrs = true -> service_scan init attrs = init.
+Proof.
+  unfold service_scan. revert init. induction attrs as [|[k v] attrs IH]; intros init H; cbn; [reflexivity|].
+  cbn in H. apply andb_true_iff in H as [H1 H2]. apply negb_true_iff in H1. rewrite H1. apply IH, H2.
+Qed.
+
+Lemma span_build_service s svc : lookup (s2b "service") (map_set_all (sp_attrs s) []) = None ->
+  lookup (s2b "service") (span_build (set_service svc s)) = Some (SStr svc).
+Proof.
+  intros H. rewrite span_build_eq, lookup_app. cbn [set_service sp_attrs].
+  rewrite (lookup_map_set_all _ _ (span_fixed _)), H. reflexivity.
+Qed.
+
+(* a resource without a service.name attribute: its spans have the empty service name *)
+Theorem trace_service_not_inherited pre r post s :
+  forallb (fun f => negb (bytes_eqb (fst f) k_service_name)) (rs_attrs r) = true ->
+  In s (rs_spans r) -> lookup (s2b "service") (map_set_all (sp_attrs s) []) = None ->
+  exists e, In e (trace_request (pre ++ r :: post)) /\ e = span_build (set_service [] s) /\
+            lookup (s2b "service") e = Some (SStr []).
+Proof.
+  intros Hn Hin Ha. exists (span_build (set_service [] s)). split; [|split; [reflexivity|apply span_build_service, Ha]].
+  rewrite trace_request_own_service. apply in_or_app. right. apply in_or_app. left.
+  rewrite (service_scan_absent [] _ Hn). apply in_map_iff. exists s. split; [reflexivity|exact Hin].
+Qed.
+
+Definition span_w0 : span := set_service [] span_w.
+(* what the loop would do with the variable declared outside (the inherited-service mutant) *)
+Theorem trace_request_carried_differs : exists rs,
+  trace_request_carried [] rs <> trace_request rs.
+Proof.
+  exists [ {| rs_attrs := [(k_service_name, SStr (s2b "checkout"))]; rs_spans := [span_w0] |};
+           {| rs_attrs := []; rs_spans := [span_w0] |} ].
+  vm_compute. congruence.
+Qed.
+
+Lemma logs_request_recs_app a b : logs_request_recs (a ++ b) = logs_request_recs a ++ logs_request_recs b.
+Proof. unfold logs_request_recs. apply flat_map_app. Qed.
+
+(* every record of an export request is stored as its own (resource, scope, record) triple says *)
+Theorem logs_request_independent pre res scs post :
+  logs_request (pre ++ (res, scs) :: post) =
+  logs_request pre ++
+  flat_map (fun sl => map (fun r => otlp_log_build res (fst sl) r) (snd sl)) scs ++
+  logs_request post.
+Proof.
+  unfold logs_request. rewrite logs_request_recs_app, map_app. f_equal.
+  change ((res, scs) :: post) with ([(res, scs)] ++ post). rewrite logs_request_recs_app, map_app. f_equal.
+  unfold logs_request_recs. cbn [flat_map fst snd]. rewrite app_nil_r.
+  induction scs as [|sl scs IH]; cbn [flat_map]; [reflexivity|].
+  rewrite map_app, IH, map_map. reflexivity.
+Qed.
+
 (* ================= 9. metrics ================= *)
 
 Theorem otsdb_seconds_point (name : bytes) tags s v : name <> [] -> 0 < s < 4294967296 ->
